@@ -99,6 +99,23 @@ def fmod(a, b):
     return r if (isfloat(a) or isfloat(b)) else int(r)
 
 
+def ints(a, b):
+    if isinstance(a, bool) or isinstance(b, bool) or not (isinstance(a, int) and isinstance(b, int)):
+        raise TypeError('int operands expected')
+    return a
+
+
+def fpow(a, b):
+    need_num(a, b)
+    if isinstance(b, bool) or not isinstance(b, int) or isinstance(a, bool):
+        raise Unsupported('non-int exponent')
+    if b < 0 and a == 0:
+        raise ZeroDivisionError
+    if isfloat(a) or b < 0:
+        return Fraction(a) ** b
+    return a ** b
+
+
 def arith(f):
     def g(a, b):
         need_num(a, b)
@@ -121,7 +138,17 @@ BIN = {
     'lt': lambda a, b: (need_num(a, b), a < b)[1], 'le': lambda a, b: (need_num(a, b), a <= b)[1],
     'gt': lambda a, b: (need_num(a, b), a > b)[1], 'ge': lambda a, b: (need_num(a, b), a >= b)[1],
     'eq': lambda a, b: (need_num(a, b), a == b)[1], 'ne': lambda a, b: (need_num(a, b), a != b)[1],
+    'pow': lambda a, b: fpow(a, b), 'lshift': lambda a, b: ints(a, b) << b, 'rshift': lambda a, b: ints(a, b) >> b,
+    'bitand': lambda a, b: ints(a, b) & b, 'bitor': lambda a, b: ints(a, b) | b, 'bitxor': lambda a, b: ints(a, b) ^ b,
 }
+
+
+class _Named(dict):
+    def __missing__(self, k):
+        raise Unsupported('named kernel %s: its scalar meaning is C15\'s (see the reflected-form probe)' % k)
+
+
+BIN = _Named(BIN)
 
 
 def neg(a):
